@@ -313,7 +313,33 @@ std::string xsummary_diff(const XSummary& a, const XSummary& b) {
   return "";
 }
 
+// What C03 promises about one expression under two forcing histories: same Status, same solid.
+struct MSummary {
+  int status;
+  bool empty;
+  double volume, area;
+};
+MSummary msummary(const Manifold& m) {
+  MSummary s;
+  s.status = (int)m.Status();
+  s.empty = m.IsEmpty();
+  s.volume = m.Volume();
+  s.area = m.SurfaceArea();
+  return s;
+}
+std::string msummary_diff(const MSummary& a, const MSummary& b) {
+  if (a.status != b.status) return "status";
+  if (a.empty != b.empty) return "emptiness";
+  if (!std::isfinite(a.volume) || !std::isfinite(b.volume)) return (std::isfinite(a.volume) != std::isfinite(b.volume)) ? "volume_finiteness" : "";
+  const double scale = std::abs(a.volume) + std::abs(b.volume) + 1e-3 * std::pow(std::max(a.area, b.area), 1.5) + 1e-9;
+  if (std::abs(a.volume - b.volume) > 1e-3 * scale) return "volume";
+  return "";
+}
+
 struct DeferPass {
+  std::vector<MSummary> sumM;
+  std::vector<bool> hugeM;  // derived from an overflowing scale
+  std::vector<double> xsettolTol;  // GetTolerance() of every result of xsettol, in op order
   std::vector<XSummary> sumX;
   std::vector<std::string> finalX, finalM;
   std::vector<std::string> copyViol;
@@ -325,9 +351,24 @@ DeferPass defer_pass(const std::vector<Op>& ops, bool observeAtBirth) {
   e.capM = 100000;
   e.capX = 100000;
   std::vector<CopyRel> rel;
+  std::vector<size_t> xsettolIdx;
+  std::set<uint64_t> hugeIds;
   for (size_t i = 0; i < ops.size(); i++) {
     const Op& op = ops[i];
-    if (op.name == "drop" || op.name == "moveout") continue;
+    if (op.name == "moveout") continue;
+    if (op.name == "drop") {
+      // destroy the object (in the deferred pass: without it ever having been evaluated) but keep the
+      // slot, so that both passes index the same objects
+      if (!e.M.empty()) {
+        const size_t d = e.mi(op.arg(0));
+        e.M[d] = Manifold();
+        std::vector<CopyRel> keep;
+        for (auto& q : rel)
+          if (!(!q.isX && (q.dst == d || q.src == d))) keep.push_back(q);
+        rel = keep;
+      }
+      continue;
+    }
     CopyRel r{false, (size_t)-1, (size_t)-1, i};
     bool isRel = false;
     if ((op.name == "copy" || op.name == "assign") && !e.M.empty()) {
@@ -350,6 +391,20 @@ DeferPass defer_pass(const std::vector<Op>& ops, bool observeAtBirth) {
       rel = keep;
     }
     exec(e, op);
+    {
+      // Results whose coordinates overflowed are outside the premise of the cross-pass comparison:
+      // the library empties an overflowed mesh (NoError) when the transform is applied, but reports
+      // NonFiniteVertex when two pending transforms compose to a non-finite matrix first.
+      bool fromHuge = op.name == "hugescale";
+      for (auto id : e.used)
+        if (hugeIds.count(id)) fromHuge = true;
+      if (fromHuge)
+        for (auto& p : e.produced)
+          if (!p.isX) hugeIds.insert(e.idM[p.idx]);
+    }
+    if (op.name == "xsettol")
+      for (auto& p : e.produced)
+        if (p.isX) xsettolIdx.push_back(p.idx);
     if (isRel && r.dst != r.src) rel.push_back(r);
     if (observeAtBirth)
       for (auto& p : e.produced) {
@@ -379,7 +434,13 @@ DeferPass defer_pass(const std::vector<Op>& ops, bool observeAtBirth) {
     out.finalX.push_back(fp_cross(x));
     out.sumX.push_back(xsummary(x));
   }
-  for (auto& m : e.M) out.finalM.push_back(fp_manifold(m));
+  for (auto& m : e.M) {
+    out.finalM.push_back(fp_manifold(m));
+    out.sumM.push_back(msummary(m));
+  }
+  for (size_t i = 0; i < e.M.size(); i++) out.hugeM.push_back(hugeIds.count(e.idM[i]) > 0);
+  for (size_t k : xsettolIdx)
+    if (k < e.X.size()) out.xsettolTol.push_back(e.X[k].GetTolerance());
   return out;
 }
 
@@ -405,6 +466,23 @@ std::string job_c05defer(const Args& a) {
     if (A.finalX.size() == B.finalX.size())
       for (size_t i = 0; i < A.finalX.size(); i++)
         if (A.finalX[i] != B.finalX[i] && !xsummary_diff(A.sumX[i], B.sumX[i]).empty()) crossPassDiffs++;
+    // (3) Manifolds across the two passes: the same expression under two forcing histories (everything
+    // forced at birth / nothing forced, temporaries destroyed unevaluated) must have the same Status and
+    // denote the same solid.
+    if (A.sumM.size() == B.sumM.size())
+      for (size_t i = 0; i < A.sumM.size(); i++) {
+        const std::string d = msummary_diff(A.sumM[i], B.sumM[i]);
+        if (!d.empty() && !A.hugeM[i] && !B.hugeM[i])
+          viol.raw(JObj().str("prop", "C05").i64("step", -1).str("op", "object:" + std::to_string(i)).str("clause", "unobserved_history_changes_solid:" + d).done());
+      }
+    // (4) SetTolerance(t) states the tolerance of its result (max(t, geometric epsilon)); whether the
+    // source still had a pending transform when it was called must not show in it.
+    if (A.xsettolTol.size() == B.xsettolTol.size())
+      for (size_t i = 0; i < A.xsettolTol.size(); i++) {
+        const double x = A.xsettolTol[i], y = B.xsettolTol[i];
+        if (std::abs(x - y) > 1e-6 * (std::abs(x) + std::abs(y)))
+          viol.raw(JObj().str("prop", "C05").i64("step", -1).str("op", "xsettol").str("clause", "lazy_state_observable:SetTolerance_result_tolerance").done());
+      }
   });
   if (out.exception) viol.raw(JObj().str("prop", "C09").i64("step", -1).str("op", "").str("clause", "exception:" + out.what).done());
   JObj j;
